@@ -238,6 +238,28 @@ def corpus(ctx):
                 ctx.violation("failing-input", "corpus: assigned value M+1 was substituted again", {"qref": q2, "assignments_in_order": list(asg.items())}, str(v), "3*M + 4")
 
 
+def corpus_f18(ctx):
+    """F18: the bound placeholder of a closed form is spelled like a parameter of the wrapper (count 5, sum N*(N+1)/2, N := 2*K): the
+    compiled repetition keeps the formula in its placeholder — at placeholder = count it gives the total 15, whatever K is"""
+    q = {"name": "root", "input_params": ["K"], "local_variables": {"L": "2*K"}, "linked_params": [{"source": "L", "targets": ["loop.N"]}],
+         "children": [{"name": "loop", "input_params": ["N"], "children": [{"name": "core", "resources": [{"name": "T", "type": "additive", "value": 3}]}],
+                       "repetition": {"count": 5, "sequence": {"type": "closed_form", "sum": "N*(N+1)/2", "num_terms_symbol": "N"}}}]}
+    st, r = try_compile(q)
+    ctx.stats["corpus_cases"] += 1
+    if st != "ok":
+        ctx.violation("failing-input", f"corpus F18: {st}", {"qref": q}, str(r)[:200], "ok")
+        return
+    rep = r.routine.children["loop"].repetition
+    try:
+        tot = E.sympy_ev(rep.sequence.sum, {str(rep.sequence.num_terms_symbol): Fraction(5), "K": Fraction(4), "N": Fraction(5)})
+    except Exception as e:
+        tot = f"{type(e).__name__}: {e}"
+    if str(rep.sequence.num_terms_symbol) != "N" or tot != 15 or E.sympy_ev(r.routine.resources["T"].value, {"K": Fraction(4)}) != 45:
+        ctx.violation("failing-input", "corpus F18: a wrapper parameter spelled like the bound placeholder of its closed form was substituted into the formula",
+                      {"qref": q}, {"sum": str(rep.sequence.sum), "num_terms_symbol": str(rep.sequence.num_terms_symbol), "sum at placeholder=count": str(tot)},
+                      {"sum": "N*(N + 1)/2", "num_terms_symbol": "N", "sum at placeholder=count": 15})
+
+
 def run(ctx, widen=False):
     n = ctx.n(300, 8000) * (3 if widen else 1)
     ctx.rule = ("(R, pi.R) pairs: pi renames the parameters/locals/port symbols of one random node injectively onto the pool N,M,K,L,x,y,S,W,z shared by "
@@ -250,6 +272,7 @@ def run(ctx, widen=False):
                         extra={"p_rep": 0.6, "rep_kinds": ["closed_form", "closed_form", "custom", "arithmetic"], "p_placeholder_clash": 0.5,
                                "p_deep_link": 0.5, "symbolic_rep": 0.9})
     corpus(ctx)
+    corpus_f18(ctx)
 
 
 def replay(payload):
